@@ -130,6 +130,13 @@ func checkC15(p *pue, c *c15Case, r *vstat.Run) outcome {
 	if c.G != nil {
 		desc += "\n" + c.G.String()
 	}
+	if f19Excluded(c.Fixture, in) {
+		// C06's known finding F19 (exponential backtracking of the sql example): not this property's business
+		if r != nil {
+			r.Count("skipped_sql_deep_nesting(C06_known_finding_F19)")
+		}
+		return outcome{}
+	}
 	if p.built != nil {
 		// cost guard: ambiguous recursive grammars backtrack exponentially (known finding F19 class); cases whose
 		// reference evaluation exceeds the step budget are discarded before the real parser runs
